@@ -28,6 +28,34 @@ type c17Letter struct {
 	apply func(d ivg.Destination, e *encode.Encoder)
 	class int  // protocol class (c10Step); kRead for mode-neutral letters
 	opens bool // styling letter that leaves a path open
+	// applyB, if set, replaces apply: the letter depends on the later program (index pi) and
+	// on the metadata it will be run with (index into c01Metas)
+	applyB func(d ivg.Destination, e *encode.Encoder, pi, meta int)
+}
+
+// c17Recolour passes every call through but swaps the red and blue channels of direct
+// colours (gradient descriptors are left alone): the same graphic, differently coloured.
+type c17Recolour struct{ ivg.Destination }
+
+func (r c17Recolour) SetCReg(adj uint8, incr bool, c ivg.Color) {
+	if k, d := rec.ColorParts(c); k == rec.KRGBA && !(d.A == 0 && d.B&0x80 != 0) {
+		c = ivg.RGBAColor(color.RGBA{d.B, d.G, d.R, d.A})
+	}
+	r.Destination.SetCReg(adj, incr, c)
+}
+
+func c17Whole(name string, wrap func(ivg.Destination) ivg.Destination, moveVB bool) c17Letter {
+	return c17Letter{name: name, class: kReset, applyB: func(d ivg.Destination, e *encode.Encoder, pi, meta int) {
+		m := c01Metas[meta]
+		if moveVB {
+			m.vb.MinX, m.vb.MaxX, m.vb.MinY, m.vb.MaxY = m.vb.MinX+3, m.vb.MaxX+3, m.vb.MinY-5, m.vb.MaxY-5
+		}
+		d.Reset(m.vb, m.pal)
+		if e != nil && c17Progs[pi].hires {
+			e.HighResolutionCoordinates = true
+		}
+		c17Progs[pi].run(wrap(d))
+	}}
 }
 
 var c17ALetters = func() []c17Letter {
@@ -47,6 +75,10 @@ var c17ALetters = func() []c17Letter {
 			case 'l':
 				if e != nil {
 					e.LOD()
+				}
+			case 'H', 'h':
+				if e != nil {
+					e.HighResolutionCoordinates = l.read == 'H'
 				}
 			default:
 				l.call.Apply(d)
@@ -93,6 +125,14 @@ var c17ALetters = func() []c17Letter {
 			d.SetCSel(63)
 			d.SetCReg(0, false, rgba(0x12, 0x34, 0x56, 0x78))
 		}},
+		c17Letter{name: "Reset(shifted viewBox)", class: kReset, apply: func(d ivg.Destination, e *encode.Encoder) {
+			// same extent as the viewBox of the later program, other origin
+			d.Reset(ivg.ViewBox{MinX: -32 + 7, MinY: -32 - 2, MaxX: 32 + 7, MaxY: 32 - 2}, ivg.DefaultPalette)
+		}},
+		// the later graphic itself, rendered / encoded before: memoisation keyed on what the two have in common
+		c17Whole("the later graphic, whole, same metadata", func(d ivg.Destination) ivg.Destination { return d }, false),
+		c17Whole("the later graphic, whole, red and blue swapped", func(d ivg.Destination) ivg.Destination { return c17Recolour{d} }, false),
+		c17Whole("the later graphic, whole, viewBox moved", func(d ivg.Destination) ivg.Destination { return d }, true),
 		c17Letter{name: "SetLOD(100,200)", class: kStyling, apply: func(d ivg.Destination, e *encode.Encoder) { d.SetLOD(100, 200) }},
 		c17Letter{name: "disabled-path", class: kStart, apply: func(d ivg.Destination, e *encode.Encoder) {
 			d.SetCReg(0, false, rgba(0, 0, 0, 0))
@@ -232,7 +272,7 @@ func init() {
 	mc.Register(&mc.Check{
 		ID:    "C17",
 		Level: "model_checking",
-		Rule: fmt.Sprintf("engine S over pairs (A,B): A = every history of <=4 (thorough <=5; the last letter state-changing) letters over a %d-letter alphabet (the 24 C10 call classes incl. protocol violations, high-resolution flag, selector/register/LOD dirtying, open runs, disabled paths) and every prefix of the testdata files as a truncated decode; B = %d probe programs, one per piece of state a leaky Reset would expose. ", nl, len(c17Progs)) +
+		Rule: fmt.Sprintf("engine S over pairs (A,B): A = every history of <=4 (thorough <=5; the last letter state-changing) letters over a %d-letter alphabet (the C10 letters incl. protocol violations and the resolution flag, selector/register/LOD dirtying, open runs, disabled paths, a Reset with a viewBox of the same extent elsewhere, and the later graphic itself run whole beforehand: unchanged, with red and blue swapped, with the viewBox moved) and every prefix of the testdata files as a truncated decode; B = %d probe programs, one per piece of state a leaky Reset would expose. ", nl, len(c17Progs)) +
 			"Encoder: A; Reset(m); B; Bytes() must equal a fresh Encoder's bytes for 2 metadata; Renderer: A then B on one Renderer + recording rasteriser must give the same rasteriser log and paints as a fresh pair, and (subset) the same pixels with raster/vec. " +
 			"states = (A,B) pairs, transitions = calls executed; non-trivial = A leaves the object in a dirty state (error, open path, non-default selectors/registers/LOD/flag)",
 		Assumptions: []string{"the caller re-arms vec.Rasterizer.DrawOp and clears the image between decodes, as the documented API requires"},
@@ -375,7 +415,11 @@ func (st *c17State) pair(a []int) {
 			w.State(1)
 			e := &encode.Encoder{}
 			for _, l := range a {
-				c17ALetters[l].apply(e, e)
+				if c17ALetters[l].applyB != nil {
+					c17ALetters[l].applyB(e, e, pi, [2]int{0, 3}[meta])
+				} else {
+					c17ALetters[l].apply(e, e)
+				}
 			}
 			w.Transition(int64(len(a)))
 			got := st.encB(e, pi, meta)
@@ -396,7 +440,11 @@ func (st *c17State) pair(a []int) {
 		z.SetRasterizer(&ras, c17Rect)
 		z.Reset(c01Metas[2].vb, c01Metas[2].pal)
 		for _, l := range a {
-			c17ALetters[l].apply(&z, nil)
+			if c17ALetters[l].applyB != nil {
+				c17ALetters[l].applyB(&z, nil, pi, 2)
+			} else {
+				c17ALetters[l].apply(&z, nil)
+			}
 		}
 		ras.ResetLog()
 		st.renB(&z, pi)
@@ -423,7 +471,11 @@ func (st *c17State) pair(a []int) {
 			w.Eval()
 			pix := st.pixB(func(z *render.Renderer) {
 				for _, l := range a {
-					c17ALetters[l].apply(z, nil)
+					if c17ALetters[l].applyB != nil {
+						c17ALetters[l].applyB(z, nil, pi, 2)
+					} else {
+						c17ALetters[l].apply(z, nil)
+					}
 				}
 			}, pi)
 			if !bytes.Equal(pix, st.freshPix[pi]) {
